@@ -8,7 +8,7 @@
     every known key has the right CBOR type" is REFUTED for the faithful
     model and for the library (open finding K1): [C04_array_as_bytes_refuted]. *)
 From Coq Require Import ZArith Permutation.
-From PSA Require Import Base Lines Lifecycle Regex Claims ClaimsSpec ClaimsProofs Cbor Utf8 Tags Wire WireProofs Codec Gates SetterProofs CodecProofs EvidenceProofs DecodeProofs DecodePerm.
+From PSA Require Import Base Lines Lifecycle Regex Claims ClaimsSpec ClaimsProofs Cbor Utf8 Tags Wire WireProofs Codec Gates SetterProofs CodecProofs EvidenceProofs DecodeProofs DecodePerm DecodeExt.
 From PSA.Spec Require Import SpecTables SpecTags.
 Open Scope N_scope.
 
@@ -70,3 +70,15 @@ Theorem C04_key_order_irrelevant : forall b b' kvs kvs',
   decode_cbor spec_ccfg W b = decode_cbor spec_ccfg W b'.
 Proof. exact decode_cbor_order_irrelevant. Qed.
 Print Assumptions C04_key_order_irrelevant.
+
+(** what the verdict depends on: two tokens inside the modelled space whose claims maps agree on the FIRST value
+    under every known integer key (265 and the claim keys of both profiles), and on whether some key is malformed,
+    get the same verdict and the same claims-set -- order, repeated keys, unknown keys and text keys are irrelevant *)
+Theorem C04_only_first_known_values_matter : forall b1 b2 kvs1 kvs2,
+  parse_all b1 = Some (CMap kvs1) -> parse_all b2 = Some (CMap kvs2) ->
+  (forall kvs, kvs = kvs1 \/ kvs = kvs2 ->
+     unmodelled_pairs selector_tags kvs = false /\ modelled spec_p1_fields spec_swc_fields kvs /\ modelled spec_p2_fields spec_swc_fields kvs) ->
+  (forall z, known_key z -> first_val kvs1 z = first_val kvs2 z) -> has_bad_key kvs1 = has_bad_key kvs2 ->
+  decode_cbor spec_ccfg W b1 = decode_cbor spec_ccfg W b2.
+Proof. exact decode_cbor_extensional. Qed.
+Print Assumptions C04_only_first_known_values_matter.
